@@ -198,7 +198,9 @@ class World:
     # ------------------------------------------------------------------ function lookup
     def function(self, qual):
         """qual = 'module:func' or 'module:Class.method' -> (ModuleInfo, ClassInfo|None, FunctionDef)"""
-        mod, name = qual.split(':')
+        # 'module:Class.method#view' names a second contract of the same function (checked against its body like any
+        # other; call sites use the contract registered under the plain name)
+        mod, name = qual.split('#')[0].split(':')
         mi = self.modules[mod]
         if '.' in name:
             c, m = name.split('.')
